@@ -396,7 +396,7 @@ def run(ctx):
     ctx.sample({'triple': case_tri(*triples[7]), 'impl': dict(zip(TRI_NAMES, [SHOW[v] for v in timpl[7]]))})
     # ---- random values of each ordered kind: groups of 5, all ordered pairs and triples within a group
     groups = []
-    for _ in range(ctx.pick(40, 1200)):
+    for _ in range(ctx.pick(40, 400)):
         for kind in ORDERED:
             groups.append(rand_group(r, kind, 5))
     rp, rt = [], []
